@@ -620,7 +620,7 @@ def c03_r4(ctx):
     ctx.check("generate_pydantic_field({ALIAS_KEYWORD: generate_constant(alias)})" in norm(pv.node), key(pv, "alias keyword"), "Field(alias=<GraphQL name>) is not built", pv.loc(), okmsg="Field(alias=<GraphQL name>)")
 
 
-@rule("C03.R5", "names fixed by the method template cannot be captured by operation variables", min_instances=5, also=["C18", "C04"])
+@rule("C03.R5", "names fixed by the method template cannot be captured by operation variables", min_instances=5, also=["C18", "C04", "C12", "C13", "C02"])
 def c03_r5(ctx):
     repo = ctx.repo
     sh = Shaper(repo)
@@ -673,6 +673,10 @@ def c03_r5(ctx):
                 fixed.setdefault(idv.value, fn)
             else:
                 via_map.add(chain(idv))
+    # a template local that is renamed on clash must be read through the renaming map at EVERY use
+    for name in sorted(set(fixed) & {v for v in mapped_vals if v}):
+        ctx.fail(key(gv, f"template bypasses the renaming of {name}"), f"the method template `{fixed[name]}` emits the fixed name `{name}` although that local is renamed to `_{name}` when an operation variable has the same name: "
+                 f"with a variable `${name}` the emitted code reads the caller's argument instead of the template's local", repo.func("client_generators.client:ClientGenerator." + fixed[name]).loc())
     reserved_for_template = {k for k in fixed if k not in ("str", "object", "Dict", "self")} | {"self"}
     # which fixed names can an operation variable produce?  process_name never changes
     # `self`, `kwargs`, `gql` (not keywords) - a protection must exist
